@@ -567,6 +567,9 @@ MISC = {
     "named-index-expr": (False, ["idx = self.x + 1", "self.o <<= self.w[idx]"]),
     "await-indexed-bit": (True, ["await self.w[self.x]", "self.o <<= True"]),
     "await-indexed-bit-later": (True, ["self.o2 <<= 1", "await self.a", "await self.w[self.x]", "self.o <<= True"]),
+    "await-expr-indexed-bit": (True, ["await cohdl.expr(self.w[self.x])", "self.o <<= True"]),
+    "await-expr-indexed-bit-later": (True, ["self.o2 <<= 1", "await self.a", "await cohdl.expr(self.w[self.x])", "self.o <<= True"]),
+    "await-expr-indexed-in-loop": (True, ["while True:", "    await cohdl.expr(self.w[self.x] & self.a)", "    self.o <<= self.w[self.x]"]),
     "ifexpr-temp-in-await": (True, ["t = self.a | self.b", "self.o <<= t", "await cohdl.expr(self.a & self.b)", "self.o2 <<= 2"]),
     "while-continue-temp-unused": (True, ["while True:", "    t = self.a ^ self.b", "    await self.a", "    if self.b:", "        continue", "    self.o <<= self.a"]),
     # (is_async, body, must_reject): value computed in one state consumed in another / outside the process
